@@ -1423,7 +1423,7 @@ class Stream(AbstractStream):
         flow (kg/hr): Water  40
         
         """
-        if other:
+        if other and not other.isempty():
             if self is other: self.empty()
             if energy_balance: H_new = self.H - other.H
             self._imol.separate_out(other._imol)
